@@ -300,7 +300,7 @@ pub fn is_zero(x: &BigUint) -> bool {
 // ---------------------------------------------------------------- scalars
 
 /// Structured scalar classes (DESIGN.md section 4, `Scalar(n)`), as integers in [0, n).
-pub const SCALAR_CLASSES: &[&str] = &["uniform", "edge", "pow2", "fraction_round", "fraction_ratio", "digits5", "small", "fraction_lowzero"];
+pub const SCALAR_CLASSES: &[&str] = &["uniform", "edge", "pow2", "fraction_round", "fraction_ratio", "digits5", "small", "fraction_lowzero", "endo_round"];
 
 pub fn scalar_strategy(n: &BigUint, class: usize) -> BoxedStrategy<BigUint> {
     let n = n.clone();
@@ -365,6 +365,26 @@ pub fn scalar_strategy(n: &BigUint, class: usize) -> BoxedStrategy<BigUint> {
                 })
                 .boxed()
         }
+        "endo_round" => {
+            // k = round(t*n/e) + delta where e is a coordinate of the reduced basis of the endomorphism lattice of the curve of
+            // order n (the multipliers of the rounded divisions inside split_mu / split_theta; a random 127-bit e for the other
+            // orders) and the quotient t has whole low limbs equal to zero or all-ones: the borrow / carry of the final
+            // +-1 correction of the quotient has to cross 32-, 64- or 96-bit limb boundaries
+            let es = endo_lattice_consts(&n);
+            (0usize..4, prop::collection::vec(any::<u8>(), 17), prop::sample::select(vec![32u64, 64, 64, 96]), prop::collection::vec(any::<u8>(), 17), -2i32..=2, -2i32..=2, 0u8..4)
+                .prop_map(move |(ei, eraw, w, araw, eps, delta, mode)| {
+                    let e = if es.is_empty() { sized(&eraw, 127) } else { es[ei % es.len()].clone() };
+                    let hi = (&e >> w).max(BigUint::one());
+                    let a = pf::from_le(&araw) % &hi;
+                    let a = match mode { 0 => a, 1 => (&a % 4u32) + 1u32, 2 => &hi - 1u32 - (&a % 4u32).min(&hi - 1u32), _ => BigUint::one() << (a.bits() % hi.bits().max(1)) };
+                    let t = a << w;
+                    let t = if eps >= 0 { t + eps as u32 } else if t >= BigUint::from((-eps) as u32) { t - (-eps) as u32 } else { t };
+                    let k = (&t * &n * 2u32 + &e) / (&e * 2u32);
+                    let k = if delta >= 0 { k + delta as u32 } else if k >= BigUint::from((-delta) as u32) { k - (-delta) as u32 } else { k };
+                    k % &n
+                })
+                .boxed()
+        }
         "digits5" => prop::collection::vec(prop_oneof![4 => prop::sample::select(vec![0u8, 15, 16, 17, 31, 1, 30]), 1 => 0u8..32], 52)
             .prop_map(move |d| {
                 let mut x = BigUint::zero();
@@ -379,6 +399,71 @@ pub fn scalar_strategy(n: &BigUint, class: usize) -> BoxedStrategy<BigUint> {
 }
 
 /// integer with exactly `bits` bits (top bit forced), 0 when bits == 0
+/// Absolute values of the coordinates of a reduced basis of the lattice {(a, b) : a + b*lambda = 0 mod n}, for every root
+/// lambda of x^2+1 (jq255e, GLS254) or x^2+x+1 (secp256k1) modulo the three group orders that come with an efficient
+/// endomorphism; empty for any other n.  Computed here (Lagrange reduction), not copied from crrl.
+pub fn endo_lattice_consts(n: &BigUint) -> Vec<BigUint> {
+    use crate::fieldapi::t::*;
+    use crate::fieldapi::PF;
+    use num_bigint::BigInt;
+    use num_traits::Signed;
+    static C: std::sync::OnceLock<Vec<(BigUint, Vec<BigUint>)>> = std::sync::OnceLock::new();
+    let tab = C.get_or_init(|| {
+        let mut out = vec![];
+        for (n, cubic) in [(ScJq255e::modulus(), false), (ScGls254::modulus(), false), (ScSecp256k1::modulus(), true)] {
+            let lambda = if cubic {
+                let s3 = pf::sqrt_any(&(&n - 3u32), &n).expect("sqrt(-3)");
+                pf::mul(&pf::sub(&s3, &BigUint::one(), &n), &pf::inv(&BigUint::from(2u32), &n), &n)
+            } else {
+                pf::sqrt_any(&(&n - 1u32), &n).expect("sqrt(-1)")
+            };
+            let mut es: Vec<BigUint> = vec![];
+            for lam in [lambda.clone(), &n - &lambda - if cubic { 1u32 } else { 0u32 }] {
+                // Lagrange reduction of ((n, 0), (-lam, 1))
+                let (mut u, mut v) = ((BigInt::from(n.clone()), BigInt::zero()), (-BigInt::from(lam), BigInt::one()));
+                let norm = |x: &(BigInt, BigInt)| &x.0 * &x.0 + &x.1 * &x.1;
+                loop {
+                    if norm(&u) < norm(&v) { std::mem::swap(&mut u, &mut v); }
+                    let nv = norm(&v);
+                    let dot = &u.0 * &v.0 + &u.1 * &v.1;
+                    // q = round(dot / nv)
+                    let num: BigInt = &dot * 2 + &nv;
+                    let den: BigInt = &nv * 2;
+                    let q: BigInt = num_integer::Integer::div_floor(&num, &den);
+                    if q.is_zero() { break; }
+                    u = (&u.0 - &q * &v.0, &u.1 - &q * &v.1);
+                }
+                for c in [u.0.abs(), u.1.abs(), v.0.abs(), v.1.abs()] {
+                    let c = c.to_biguint().unwrap();
+                    if !c.is_zero() && !es.contains(&c) { es.push(c); }
+                }
+            }
+            out.push((n, es));
+        }
+        out
+    });
+    tab.iter().find(|(m, _)| m == n).map(|(_, e)| e.clone()).unwrap_or_default()
+}
+
+/// Operand for a multiplication by the small constant x: every W-bit unit (W = 64, 32 or 51, the limb widths of the
+/// backends) of the raw value is ceil(j * 2^W / x) - d for a random j < x and a small d, so that unit * x lands within a few
+/// multiples of x of a multiple of 2^W: the per-limb products then sit on their carry boundaries.
+pub fn carry_limbs(x: u32, n: usize, js: &[u32], ds: &[u8], width: u8) -> Vec<u64> {
+    let w: u64 = match width % 3 { 0 => 64, 1 => 32, _ => 51 };
+    let x = x.max(2) as u128;
+    let units = (64 * n as u64 + w - 1) / w;
+    let mut v = BigUint::zero();
+    for i in 0..units as usize {
+        let j = (js[i % js.len()] as u128) % x;
+        let d = (ds[i % ds.len()] % 4) as u128;
+        let u = ((j << w) + x - 1) / x;
+        let u = u.wrapping_sub(d) & ((1u128 << w) - 1);
+        v += BigUint::from(u) << (w as usize * i);
+    }
+    v &= (BigUint::one() << (64 * n)) - 1u32;
+    limbs_of(&v, n)
+}
+
 pub fn sized(raw: &[u8], bits: u64) -> BigUint {
     if bits == 0 {
         return BigUint::zero();
